@@ -1156,10 +1156,65 @@ macro_rules! reg {
 /// Number of types in the core family (the position product follows it).
 pub const N_CORE: usize = 50;
 
+/// A second enum with the same Rust identifier as `K` in another module, different variant
+/// names at the same indices: anything keyed by (type name, variant index) confuses the two
+/// (seed C14-g1: a per-thread cache of unit-variant symbols).
+pub mod alt {
+    use serde_derive::{Deserialize, Serialize};
+    #[derive(Serialize, Deserialize, PartialEq, Debug, Clone, PartialOrd, Ord, Eq)]
+    pub enum K {
+        X,
+        Y,
+        Z,
+    }
+    #[derive(Serialize, Deserialize, PartialEq, Debug, Clone)]
+    pub enum E {
+        Other,
+        NtVec(u8),
+        St1 { y: u8 },
+    }
+}
+#[derive(Serialize, Deserialize, PartialEq, Debug, Clone)]
+pub struct TwoEnums {
+    pub a: K,
+    pub b: alt::K,
+    pub c: alt::E,
+    pub d: E,
+    pub e: alt::K,
+    pub f: K,
+}
+impl Fam for TwoEnums {
+    fn tname() -> String {
+        "TwoEnums { a: K, b: alt::K, c: alt::E, d: E, e: alt::K, f: K } (two pairs of enums with the same identifier)".into()
+    }
+    fn inhabitants(_b: &Budget) -> Vec<Self> {
+        let ks = [K::A, K::B, K::C];
+        let aks = [alt::K::X, alt::K::Y, alt::K::Z];
+        let aes = [alt::E::Other, alt::E::NtVec(7), alt::E::St1 { y: 9 }];
+        let es = [E::Unit, E::NtVec(vec![7]), E::St1 { x: 9 }];
+        let mut v = Vec::new();
+        for i in 0..3 {
+            for j in 0..3 {
+                v.push(TwoEnums { a: ks[i].clone(), b: aks[j].clone(), c: aes[i].clone(), d: es[j].clone(), e: aks[i].clone(), f: ks[j].clone() });
+            }
+        }
+        v
+    }
+    fn sh(&self) -> Sh {
+        let ak = |k: &alt::K| Sh::sym(match k { alt::K::X => "X", alt::K::Y => "Y", alt::K::Z => "Z" });
+        let ae = match &self.c {
+            alt::E::Other => Sh::sym("Other"),
+            alt::E::NtVec(n) => Sh::Cons(Box::new(Sh::sym("NtVec")), Box::new(n.sh())),
+            alt::E::St1 { y } => Sh::Cons(Box::new(Sh::sym("St1")), Box::new(Sh::Alist(vec![(Sh::sym("y"), y.sh())]))),
+        };
+        Sh::Alist(vec![(Sh::sym("a"), self.a.sh()), (Sh::sym("b"), ak(&self.b)), (Sh::sym("c"), ae), (Sh::sym("d"), self.d.sh()), (Sh::sym("e"), ak(&self.e)), (Sh::sym("f"), self.f.sh())])
+    }
+}
+
 pub fn family() -> Vec<Box<dyn Runner>> {
     let mut v = family_core();
     assert_eq!(v.len(), N_CORE);
-    v.extend(reg![TwoStep, Vec<TwoStep>]);
+    v.extend(reg![TwoStep, Vec<TwoStep>, Vec<char>, BTreeSet<char>, Vec<(char, char)>, BTreeMap<i16, u8>, BTreeMap<u32, String>, TwoEnums, Vec<TwoEnums>]);
     v.extend(reg_positions![
         (), u64, f64, String, ByteBuf, Option<u8>, Option<Option<u8>>, Option<()>, Option<Vec<u8>>, Vec<u8>, Vec<Option<u8>>, Vec<Vec<()>>,
         (u8, String), [u8; 0], UnitS, Tup0S, EmptyS, K, E, BTreeMap<String, Option<u8>>, NewtypeS,
